@@ -122,6 +122,9 @@ def group_params(r, pool, idx, kinds=('planar', 'volumetric', 'image')):
         t = r.choice(['region2d', 'region2d', 'region3d', 'segframe', 'region_in_space'])
         if t == 'region2d':
             g['ref'] = {'type': t, 'graphic': r.choice(G2D), 'source': img()}
+            if r.random() < 0.35:
+                g['ref']['source_frames'] = sorted(r.sample(range(1, 9), r.choice([1, 2])))
+                g['ref']['origin'] = r.choice([None, 'FRAME', 'VOLUME'])
         elif t == 'region3d':
             g['ref'] = {'type': t, 'graphic': r.choice(G3D_REGION)}
         elif t == 'segframe':
@@ -139,7 +142,8 @@ def group_params(r, pool, idx, kinds=('planar', 'volumetric', 'image')):
         elif t == 'segment':
             if r.random() < 0.7:
                 g['ref'] = {'type': t, 'seg': r.choice(pool['segs']), 'segment': r.randint(1, 3),
-                            'sources': [img() for _ in range(r.choice([1, 2]))], 'series': None}
+                            'sources': [img() for _ in range(r.choice([1, 2]))], 'series': None,
+                            'frames': sorted(r.sample(range(1, 9), 2)) if r.random() < 0.4 else None}
             else:
                 g['ref'] = {'type': t, 'seg': r.choice(pool['segs']), 'segment': r.randint(1, 3), 'sources': None,
                             'series': r.choice(pool['series'])}
@@ -176,7 +180,8 @@ def build_group(r, g):
             time_point_order=g['context']['time_point']['order'],
             subject_time_point_identifier=g['context']['time_point']['subject']) if g['context']['time_point'] else None,
         referenced_real_world_value_map=sr.RealWorldValueMap(g['context']['rwvm']) if g['context']['rwvm'] else None,
-        finding_sites=[sr.FindingSite(anatomic_location=cc(s), laterality=cc(lat) if lat else None)
+        finding_sites=[sr.FindingSite(anatomic_location=cc(s), laterality=cc(lat) if lat else None,
+                                      topographical_modifier=cc(('TM1', '99VERIF')) if (lat and lat[0] == 'L9') else None)
                        for s, lat in zip(g['finding_sites'], g['lateralities'])] or None,
         measurements=[sr.Measurement(
             name=cc(n), value=v, unit=cc(u),
@@ -193,12 +198,14 @@ def build_group(r, g):
     if g['kind'] != 'image':
         kw['geometric_purpose'] = cc(g['geometric_purpose']) if g['geometric_purpose'] else None
 
-    def region2d(graphic, source):
-        return sr.ImageRegion(graphic, _data2d(r, graphic), sr.SourceImageForRegion(source[0], source[1]))
+    def region2d(graphic, source, frames=None, origin=None):
+        return sr.ImageRegion(graphic, _data2d(r, graphic), sr.SourceImageForRegion(source[0], source[1], referenced_frame_numbers=frames),
+                              pixel_origin_interpretation=origin)
 
     placeholder = False
     if t == 'region2d':
-        obj = sr.PlanarROIMeasurementsAndQualitativeEvaluations(referenced_region=region2d(ref['graphic'], ref['source']), **kw)
+        obj = sr.PlanarROIMeasurementsAndQualitativeEvaluations(
+            referenced_region=region2d(ref['graphic'], ref['source'], ref.get('source_frames'), ref.get('origin')), **kw)
     elif t == 'region3d':
         obj = sr.PlanarROIMeasurementsAndQualitativeEvaluations(
             referenced_region=sr.ImageRegion3D(ref['graphic'], _data3d(r, ref['graphic']), '1.2.826.0.1.3680043.8.498.16.77'), **kw)
@@ -213,7 +220,7 @@ def build_group(r, g):
     elif t == 'segment':
         obj = sr.VolumetricROIMeasurementsAndQualitativeEvaluations(
             referenced_segment=sr.ReferencedSegment(
-                ref['seg'][0], ref['seg'][1], ref['segment'],
+                ref['seg'][0], ref['seg'][1], ref['segment'], frame_numbers=ref.get('frames'),
                 source_images=[sr.SourceImageForSegmentation(a, b) for a, b in ref['sources']] if ref['sources'] else None,
                 source_series=sr.SourceSeriesForSegmentation(ref['series']) if ref['series'] else None), **kw)
     elif t == 'surface':
